@@ -178,6 +178,7 @@ def bounds(tier):
         "alphabet_D3": len(alphabet(3, tier)),
         "depth_full_alphabet": 2,
         "depth_reduced_alphabet": 2 if tier == "quick" else 3,
+        "depth3_from_every_nth_initial_grid": 4,
         "reduced_alphabet": len(reduced_alphabet(2)),
     }
 
@@ -650,12 +651,20 @@ class Explorer:
             self.explore(g2, r2, h2, max(depth_left_full - 1, 0), depth_left_reduced - 1 if depth_left_full == 0 else depth_left_reduced)
 
 
+BLOCK = 8  # first operations per shard (every shard runs in a freshly forked process)
+
+
+def depth3_spec(i: int) -> bool:
+    """Thorough tier: depth 3 (reduced alphabet) from every 4th initial grid; depth 2 (full alphabet) from all."""
+    return i % 4 == 0
+
+
 def shards(tier: str, seed: int):
     out = []
     for i, spec in enumerate(initial_specs(tier, seed)):
         D = len(spec["size"])
         nops = len(alphabet(D, tier))
-        for j in range(nops):
+        for j in range(0, nops, BLOCK):
             out.append({"tier": tier, "seed": seed, "spec": i, "first": j})
     return out
 
@@ -665,25 +674,33 @@ def run_shard(shard) -> Acc:
     tier = shard["tier"]
     spec = initial_specs(tier, shard["seed"])[shard["spec"]]
     ex = Explorer(acc, spec, tier)
-    g0 = rg.real_grid(spec)
     r0 = rg.ref_grid(spec)
+    g0 = rg.real_grid(spec)
     acc.state(state_key(g0))
     # initial state: real attributes must match the reference (construction route origin=)
     for kind, detail in compare(g0, r0, 0):
         acc.violation(f"C03/construct/{kind}", {"spec": spec, "ops": []}, detail, size=0)
-    op = ex.full[shard["first"]]
-    nxt = ex.step(g0, r0, op, 0, [])
-    if nxt is not None:
+    key0 = state_key(g0)
+    for op in ex.full[shard["first"] : shard["first"] + BLOCK]:
+        nxt = ex.step(g0, r0, op, 0, [])
+        # derivation calls return NEW grids: the grid they were called on must be bit-identical afterwards
+        if state_key(g0) != key0:
+            acc.violation(f"C03/{op_sig(op)}/receiver-mutated", {"spec": spec, "ops": [op]}, "the grid the method was called on changed", size=1)
+            g0 = rg.real_grid(spec)
+        if nxt is None:
+            continue
         g1, r1 = nxt
         acc.trace("chain", depth=1)
         acc.outcome(state_key(g1))
-        if state_key(g1) != state_key(g0):
+        if state_key(g1) != key0:
             acc.nontriv(state_key(g1))
         if tier == "quick":
             ex.explore(g1, r1, [op], 1, 0)
-        else:
+        elif depth3_spec(shard["spec"]):
             # depth 2 with the full alphabet, depth 3 with the reduced alphabet
             ex.explore(g1, r1, [op], 1, 1)
+        else:
+            ex.explore(g1, r1, [op], 1, 0)
     return acc
 
 
@@ -701,7 +718,10 @@ def replay(case):
         info = ref_step(r, op)
         if info is None:
             break
+        key_before = state_key(g)
         st, res = guarded(impl_step, g, op)
+        if state_key(g) != key_before:
+            out.append((f"C03/{op_sig(op)}/receiver-mutated", "the grid the method was called on changed"))
         if st == "raises":
             if isinstance(res, NotImplementedError):
                 break
